@@ -98,7 +98,7 @@ def check(el, ops, probe_syms=None, all_points=False):
                             {'step': pt, 'fields': ['string'], 'intelligent_choice': ic, 'A': {'string': va},
                              'B': {'string': vb}}, pt), failed
     if probe_syms and A.dfa is not None:
-        for pt in points:
+        for pt in (points if all_points else points[-1:]):
             for sym in probe_syms:
                 va = replay_then(el, ops, (), pt + 1, ('add', sym))
                 vb = replay_then(el, ops, failed, pt + 1, ('add', sym))
@@ -133,7 +133,7 @@ def run_shard(ctx, shard, acc):
     if shard['mode'] == 'exh':
         for t, els in shard['types']:
             syms = symbol_subset(t, 5)
-            for ops in enum_histories(t, 3, 8 if ctx.quick else 12):
+            for ops in enum_histories(t, 3, 6 if ctx.quick else 12):
                 A, f, failed = check(els[0], ops, syms if not ctx.quick else syms[:3])
                 if A.e is None:
                     break
